@@ -452,7 +452,7 @@ def xsd_repr(value: AnyXSDType) -> str:
     elif isinstance(value, Date):
         return value.isoformat() + _serialize_date_tzinfo(value)
     elif isinstance(value, GYearMonth):
-        return "{:02d}-{:02d}".format(value.year, value.month) + _serialize_date_tzinfo(value)
+        return "{:04d}-{:02d}".format(value.year, value.month) + _serialize_date_tzinfo(value)
     elif isinstance(value, GYear):
         return "{:04d}".format(value.year) + _serialize_date_tzinfo(value)
     elif isinstance(value, GMonthDay):
